@@ -80,7 +80,7 @@ Definition readback (cmd : command) : list command :=
   match cmd with
   | CmdFaceModify m => if fm_is_default m then [] else [CmdFaceModify m]
   | CmdFace f => [CmdFaceModify (face_as_modify f)]
-  | CmdChar c => [CmdChar c]
+  | CmdChar c => [CmdChar (char_out c)]
   | CmdRaw _ => []
   end.
 
@@ -88,9 +88,18 @@ Definition cmd_ok (cmd : command) : Prop :=
   match cmd with
   | CmdFaceModify m => fm_opaque m
   | CmdFace f => face_opaque f
-  | CmdChar c => scalar_ok c = true /\ c <> 27
+  | CmdChar c => scalar_ok c = true
   | CmdRaw _ => False
   end.
+
+Lemma char_out_ok c : scalar_ok c = true -> scalar_ok (char_out c) = true /\ char_out c <> 27.
+Proof.
+  intros Hs. unfold char_out, char_unsafe.
+  destruct (c =? 27) eqn:E; cbn [orb]; [split; [reflexivity| discriminate]|].
+  apply N.eqb_neq in E.
+  destruct ((c =? 144) || (c =? 152) || (c =? 155) || (c =? 157) || (c =? 158) || (c =? 159));
+    [split; [reflexivity| discriminate]| split; assumption].
+Qed.
 
 Lemma run_encode cmd :
   cmd_ok cmd -> exists toks, run st_init (encode cmd) = (st_init, toks) /\ cmds_of toks = readback cmd.
@@ -103,7 +112,8 @@ Proof.
     + exists [TItem (CmdFaceModify m)]. split; [|reflexivity].
       unfold sgr_wrap. rewrite <- E. apply run_sgr; [apply join_param, pchunks_modify|].
       apply sgr_roundtrip_modify; [exact Ho| rewrite E; discriminate].
-  - intros [Hs Hn]. exists [TItem (CmdChar c)]. split; [apply run_char; assumption| reflexivity].
+  - intros Hs. destruct (char_out_ok c Hs) as [Hs' Hn]. exists [TItem (CmdChar (char_out c))].
+    split; [apply run_char; assumption| reflexivity].
   - intros [].
 Qed.
 
@@ -274,14 +284,22 @@ Proof.
 Qed.
 
 Lemma roundtrip_text : forall (c : N) (chunks : list (list N)),
-  scalar_ok c = true -> c <> 27 ->
+  scalar_ok c = true ->
+  concat chunks = encode (CmdChar c) ->
+  decode_chunks st_init chunks = Some ([CmdChar (char_out c)], st_init).
+Proof.
+  intros c chunks Hs Hc.
+  rewrite (stream_roundtrip [CmdChar c] chunks); cbn [map concat flat_map readback]; [reflexivity| |].
+  - constructor; [assumption| constructor].
+  - rewrite app_nil_r. exact Hc.
+Qed.
+
+Lemma roundtrip_text_same : forall (c : N) (chunks : list (list N)),
+  scalar_ok c = true -> char_unsafe c = false ->
   concat chunks = encode (CmdChar c) ->
   decode_chunks st_init chunks = Some ([CmdChar c], st_init).
 Proof.
-  intros c chunks Hs Hn Hc.
-  rewrite (stream_roundtrip [CmdChar c] chunks); cbn [map concat flat_map readback]; [reflexivity| |].
-  - constructor; [split; assumption| constructor].
-  - rewrite app_nil_r. exact Hc.
+  intros c chunks Hs Hu Hc. rewrite (roundtrip_text c chunks Hs Hc). unfold char_out. rewrite Hu. reflexivity.
 Qed.
 
 Lemma apply_meaning : forall (m : face_modify) (f : face),
